@@ -194,9 +194,13 @@ def tour_cases():
     rows += near_tie_rows(r, ts)
     rows += size_history_rows(r)
     # SCALE: large populations and many rounds (thresholds, index types, accumulated state only show beyond toy sizes)
-    for (L, n) in ([(300, 40), (1000, 7)] if hlib.QUICK else [(300, 40), (1000, 7), (5000, 3), (64, 700), (257, 257)]):
+    for (L, n) in ([(300, 40), (1000, 7), (300, 41)] if hlib.QUICK else [(300, 40), (1000, 7), (300, 41), (5000, 3), (64, 700), (257, 257)]):
         fit = [float(r.randint(-50, 50)) for _ in range(L)]
         script = [r.randrange(L) for _ in range(n * max(ts, 1) + 4)]
+        if (L, n) == (300, 41):
+            # the fitter individuals sit at the HIGH positions and only those are drawn: every winner is a position above 255
+            fit = [float(L - i) for i in range(L)]
+            script = [r.randrange(L - 40, L) for _ in range(n * max(ts, 1) + 4)]
         res = run_tournament(fit, True, n, script)
         k, msg = tour_oracle(fit, n, script, res, ts) if ts >= 1 else (None, None)
         rows.append({'fit': [key(v) for v in fit], 'as_array': True, 'n': n, 'script': script, 'res': res,
